@@ -33,9 +33,11 @@ func jksLengthsPlausible(data []byte) bool {
 		off += 4
 		return v, true
 	}
+	truncated := false
 	skip := func(n uint64, ok bool) bool {
 		if !ok {
-			return true // truncated inside a field: the library reports it
+			truncated = true // truncated inside a field: the library reports it, and there is nothing left to walk
+			return true
 		}
 		if !need(n) {
 			return false // the field promises more bytes than are there
@@ -44,7 +46,7 @@ func jksLengthsPlausible(data []byte) bool {
 		return true
 	}
 	count := binary.BigEndian.Uint32(data[8:12])
-	for i := uint32(0); i < count && off < len(data); i++ {
+	for i := uint32(0); i < count && off < len(data) && !truncated; i++ {
 		typ, ok := u32()
 		if !ok {
 			return true
@@ -68,7 +70,7 @@ func jksLengthsPlausible(data []byte) bool {
 		default:
 			return true // secret-key entry or unknown: not walked
 		}
-		for c := uint64(0); c < certs && off < len(data); c++ {
+		for c := uint64(0); c < certs && off < len(data) && !truncated; c++ {
 			if !skip(u16()) { // certificate type
 				return false
 			}
